@@ -122,99 +122,8 @@ func c02Prefix(w *World, r *Report) {
 }
 
 func c02Root(w *World, r *Report) {
-	// who calls SetIsRootBased
-	var setRoot *types.Func
 	cpo := w.Method("xpath", "ProgBuilder", "CodePathOper")
-	n := 0
-	for _, pk := range w.All {
-		for _, fd := range funcDecls(pk) {
-			if isTestFile(w, fd.Pos()) {
-				continue
-			}
-			ast.Inspect(fd.Body, func(x ast.Node) bool {
-				ce, ok := x.(*ast.CallExpr)
-				if !ok {
-					return true
-				}
-				c := calleeOf(pk, ce)
-				if c == nil || c.Name() != "SetIsRootBased" {
-					return true
-				}
-				setRoot = c
-				n++
-				inCPO := pk.TypesInfo.Defs[fd.Name] == cpo
-				arg := ConstOf(pk, ce.Args[0])
-				isTrue := arg != nil && arg.Kind() == constant.Bool && constant.BoolVal(arg)
-				// must sit in the '/' arm
-				inSlash := false
-				if inCPO {
-					for _, sw := range switchesOn(fd.Body, func(e ast.Expr) bool { return objOfIdent(pk, e) == paramObj(pk, fd, 0) }) {
-						for _, a := range switchArms(pk, sw) {
-							if a.Clause.Pos() <= ce.Pos() && ce.End() <= a.Clause.End() {
-								for _, c := range a.Consts {
-									if v, ok := intConst(c); ok && v == '/' && len(a.Consts) == 1 {
-										inSlash = true
-									}
-								}
-							}
-						}
-					}
-				}
-				r.Check(inCPO && inSlash && isTrue, "R02.2", "SetIsRootBased call in "+funcDeclName(fd), ce.Pos(), "only in CodePathOper's '/' arm, with true",
-					"a path is marked root-based outside the '/' arm of CodePathOper: relative paths would be resolved from the root (or absolute ones from the context node)")
-				return true
-			})
-		}
-	}
-	if n == 0 || setRoot == nil {
-		r.Fail("R02.2", "SetIsRootBased", token.NoPos, "no call found: absolute paths are never marked root-based")
-	}
-	// the absolute path starts empty: the receiver of SetIsRootBased is a freshly allocated path that replaces
-	// the top of the path stack (inside a predicate the top is a copy of the path up to the step)
-	{
-		okFresh, okSwap := false, false
-		var pos token.Pos
-		for _, f := range allFuncs(w.SSAPkg("xpath")) {
-			if f.Parent() == nil || f.Parent().Object() != types.Object(cpo) {
-				continue
-			}
-			var pops, pushes int
-			var recv ssa.Value
-			var pushed ssa.Value
-			for _, b := range f.Blocks {
-				for _, in := range b.Instrs {
-					c, ok := in.(*ssa.Call)
-					if !ok || c.Call.StaticCallee() == nil {
-						continue
-					}
-					switch c.Call.StaticCallee().Name() {
-					case "SetIsRootBased":
-						recv = c.Call.Args[0]
-						pos = c.Pos()
-					case "PopPath":
-						pops++
-					case "PushPath":
-						pushes++
-						pushed = c.Call.Args[1]
-					}
-				}
-			}
-			if recv == nil {
-				continue
-			}
-			_, okFresh = recv.(*ssa.Alloc)
-			if okFresh && pops == 1 && pushes == 1 && pushed != nil {
-				// what is pushed is the fresh path (directly or as SetIsRootBased's fluent result)
-				if pushed == recv {
-					okSwap = true
-				} else if pc, ok := pushed.(*ssa.Call); ok && pc.Call.StaticCallee() != nil && pc.Call.StaticCallee().Name() == "SetIsRootBased" && pc.Call.Args[0] == recv {
-					okSwap = true
-				}
-			}
-		}
-		r.Check(okFresh && okSwap, "R02.2", "the '/' instruction starts an empty root-based path", pos, "PopPath; PushPath(fresh path marked root-based)",
-			"the '/' instruction marks the path under construction as root-based instead of replacing it by an empty one: inside a predicate that is a copy of the path so far, so /a/b[k = /x/y] asks the tree for /a/b/x/y")
-	}
+	c02RootInstruction(w, r, cpo)
 	// grammar: CodePathOper('/') only in Root productions; Root only first
 	for _, gname := range []string{"expr", "leafref"} {
 		g := w.Gram[gname]
@@ -566,47 +475,13 @@ func c02Brackets(w *World, r *Report) {
 	// the toggle: the field incremented in EvalLocPath under predicateCount > 0
 	elp := w.Method("xpath", "ProgBuilder", "EvalLocPath")
 	efd, ep := w.FuncDecl(elp)
-	var toggle *types.Var
-	var skipParity int64 = -1
-	ast.Inspect(efd.Body, func(n ast.Node) bool {
-		is, ok := n.(*ast.IfStmt)
-		if !ok {
-			return true
-		}
-		be, ok := ast.Unparen(is.Cond).(*ast.BinaryExpr)
-		if !ok || be.Op != token.GTR || fieldOfSel(ep, be.X) != pc {
-			return true
-		}
-		for _, s := range is.Body.List {
-			switch x := s.(type) {
-			case *ast.AssignStmt:
-				if x.Tok == token.ADD_ASSIGN {
-					if f := fieldOfSel(ep, x.Lhs[0]); f != nil {
-						toggle = f
-					}
-				}
-			case *ast.IncDecStmt:
-				if x.Tok == token.INC {
-					toggle = fieldOfSel(ep, x.X)
-				}
-			case *ast.IfStmt:
-				// if toggle%2 == K { return }
-				if b2, ok := ast.Unparen(x.Cond).(*ast.BinaryExpr); ok && b2.Op == token.EQL {
-					if rem, ok := ast.Unparen(b2.X).(*ast.BinaryExpr); ok && rem.Op == token.REM && toggle != nil && fieldOfSel(ep, rem.X) == toggle {
-						if v, ok := ConstInt(ep, b2.Y); ok && len(returnsIn(x.Body)) == 1 {
-							skipParity = v
-						}
-					}
-				}
-			}
-		}
-		return true
-	})
+	_, _ = efd, ep
+	toggle, why := c02EvalLocPathGate(w)
 	if toggle == nil {
-		r.Fail("R02.6", "EvalLocPath toggle", efd.Pos(), "no per-predicate counter incremented under predicateCount > 0 found")
+		r.Fail("R02.6", "EvalLocPath toggle", efd.Pos(), why)
 		return
 	}
-	r.Check(skipParity == 1, "R02.6", "EvalLocPath skips the key-name path", efd.Pos(), "after incrementing, odd ⇒ return (the key name is not resolved to a value)", fmt.Sprintf("EvalLocPath returns early on parity %d; the first path inside a predicate (the key name) must be the one skipped", skipParity))
+	r.Check(why == "", "R02.6", "EvalLocPath skips the key-name path", efd.Pos(), "inside a predicate: increment the toggle, resolve the path iff the toggle is then even (the key name is not resolved to a value); outside: iff the previous predicate asks for it", why)
 	// step instruction: literal when predicateCount > 0 && toggle%2 == 0
 	cnt := w.Method("xpath", "ProgBuilder", "CodeNameTest")
 	cfd, cp := w.FuncDecl(cnt)
@@ -718,14 +593,12 @@ func c02PathWriters(w *World, r *Report) {
 	}
 	seen := map[string]bool{}
 	for _, f := range allFuncs(sp) {
-		fname := f.Name()
-		if f.Parent() != nil {
-			fname = f.Parent().Name() // closures are named after the function that builds them
-		}
-		if recv := f.Signature.Recv(); recv != nil && f.Parent() == nil {
+		// closures are named after the function that builds them, helpers
+		// used by one function only after that function
+		own := w.OwnerOf(f)
+		fname := own.Name()
+		if recv := own.Signature.Recv(); recv != nil {
 			fname = namedStructOf(recv.Type()) + "." + fname
-		} else if f.Parent() != nil && f.Parent().Signature.Recv() != nil {
-			fname = namedStructOf(f.Parent().Signature.Recv().Type()) + "." + fname
 		}
 		report := func(what string, pos token.Pos) {
 			key := fname + " → " + what
@@ -999,4 +872,224 @@ func sortStrings(s []string) {
 			s[j], s[j-1] = s[j-1], s[j]
 		}
 	}
+}
+
+// c02RootInstruction (R02.2): SetIsRootBased is called with true only, only
+// inside functions that become an instruction in CodePathOper, and such a
+// function is selected there exactly for elem == '/'; the function replaces
+// the path on top of the stack by a fresh one marked root-based.
+func c02RootInstruction(w *World, r *Report, cpo *types.Func) {
+	sp := w.SSAPkg("xpath")
+	cpoF := w.SSAFunc(cpo)
+	if cpoF == nil {
+		panic(undecided{"ProgBuilder.CodePathOper"})
+	}
+	sym := NewSym(w)
+	n := 0
+	for _, f := range allFuncs(sp) {
+		if isTestFile(w, f.Pos()) {
+			continue
+		}
+		var pops, pushes int
+		var recv, pushed ssa.Value
+		var setPos token.Pos
+		isTrue := true
+		for _, b := range f.Blocks {
+			for _, in := range b.Instrs {
+				c, ok := in.(*ssa.Call)
+				if !ok || c.Call.StaticCallee() == nil {
+					continue
+				}
+				switch c.Call.StaticCallee().Name() {
+				case "SetIsRootBased":
+					recv = c.Call.Args[0]
+					setPos = c.Pos()
+					if k, ok := c.Call.Args[1].(*ssa.Const); !ok || k.Value == nil || k.Value.ExactString() != "true" {
+						isTrue = false
+					}
+				case "PopPath":
+					pops++
+				case "PushPath":
+					pushes++
+					pushed = c.Call.Args[1]
+				}
+			}
+		}
+		if recv == nil {
+			continue
+		}
+		n++
+		inst := "SetIsRootBased call in " + w.OwnerOf(f).Name()
+		// where does f become an instruction?
+		why := ""
+		if !isTrue {
+			why = "called with something other than true"
+		}
+		uses := 0
+		for _, g := range allFuncs(sp) {
+			if isTestFile(w, g.Pos()) {
+				continue
+			}
+			for _, b := range g.Blocks {
+				for _, in := range b.Instrs {
+					for _, op := range in.Operands(nil) {
+						v := *op
+						if mc, ok := v.(*ssa.MakeClosure); ok {
+							v = mc.Fn
+						}
+						if v != ssa.Value(f) {
+							continue
+						}
+						if _, isMC := in.(*ssa.MakeClosure); isMC {
+							continue // counted where the closure value is used
+						}
+						uses++
+						if g != cpoF {
+							why = "used in " + g.Name() + ", outside CodePathOper"
+							continue
+						}
+						blk := in.Block()
+						if phi, ok := in.(*ssa.Phi); ok {
+							for i, e := range phi.Edges {
+								ev := e
+								if mc, ok := ev.(*ssa.MakeClosure); ok {
+									ev = mc.Fn
+								}
+								if ev == ssa.Value(f) {
+									blk = phi.Block().Preds[i]
+								}
+							}
+						}
+						vals, ok := pcValuesWhen(sym.PathCond(g.Blocks[0], blk, nil), "p1")
+						if !ok || !vals.equal(isetOf('/')) {
+							why = "selected for elem ∈ " + vals.String() + ", not exactly for '/'"
+						}
+					}
+				}
+			}
+		}
+		if uses == 0 && why == "" {
+			why = "never becomes an instruction"
+		}
+		r.Check(why == "", "R02.2", inst, setPos, "only in the instruction CodePathOper emits for '/', with true",
+			"a path is marked root-based outside the '/' arm of CodePathOper ("+why+"): relative paths would be resolved from the root (or absolute ones from the context node)")
+		_, okFresh := recv.(*ssa.Alloc)
+		okSwap := false
+		if okFresh && pops == 1 && pushes == 1 && pushed != nil {
+			if pushed == recv {
+				okSwap = true
+			} else if pc, ok := pushed.(*ssa.Call); ok && pc.Call.StaticCallee() != nil && pc.Call.StaticCallee().Name() == "SetIsRootBased" && pc.Call.Args[0] == recv {
+				okSwap = true
+			}
+		}
+		r.Check(okFresh && okSwap, "R02.2", "the '/' instruction starts an empty root-based path", setPos, "PopPath; PushPath(fresh path marked root-based)",
+			"the '/' instruction marks the path under construction as root-based instead of replacing it by an empty one: inside a predicate that is a copy of the path so far, so /a/b[k = /x/y] asks the tree for /a/b/x/y")
+	}
+	if n == 0 {
+		r.Fail("R02.2", "SetIsRootBased", token.NoPos, "no call found: absolute paths are never marked root-based")
+	}
+}
+
+// c02EvalLocPathGate (R02.6): the toggle is the context field EvalLocPath
+// increments exactly when it runs inside a predicate; EvalLocPathInternal is
+// reached exactly when (inside a predicate and the toggle is even after the
+// increment) or (outside and previousPredicateRequiresELP).
+func c02EvalLocPathGate(w *World) (*types.Var, string) {
+	f := w.SSAFunc(w.Method("xpath", "ProgBuilder", "EvalLocPath"))
+	inner := w.Method("xpath", "ProgBuilder", "EvalLocPathInternal")
+	if f == nil {
+		panic(undecided{"ProgBuilder.EvalLocPath"})
+	}
+	sym := NewSym(w)
+	ctxKey := sym.Key(f.Params[1], nil)
+	var toggle *types.Var
+	var incr *ssa.Store
+	for _, b := range f.Blocks {
+		for _, in := range b.Instrs {
+			st, ok := in.(*ssa.Store)
+			if !ok {
+				continue
+			}
+			fa, ok := st.Addr.(*ssa.FieldAddr)
+			if !ok || fa.X != ssa.Value(f.Params[1]) {
+				continue
+			}
+			bo, ok := st.Val.(*ssa.BinOp)
+			if !ok || bo.Op != token.ADD {
+				continue
+			}
+			if one, ok := intConstOf(bo.Y); !ok || one != 1 {
+				continue
+			}
+			if ld, ok := bo.X.(*ssa.UnOp); ok && ld.Op == token.MUL {
+				if fa2, ok := ld.X.(*ssa.FieldAddr); ok && fa2.X == fa.X && fa2.Field == fa.Field {
+					stt := fa.X.Type().Underlying().(*types.Pointer).Elem().Underlying().(*types.Struct)
+					if toggle != nil {
+						return nil, "two counters are incremented in EvalLocPath — not decided"
+					}
+					toggle = stt.Field(fa.Field)
+					incr = st
+				}
+			}
+		}
+	}
+	if toggle == nil {
+		return nil, "no per-predicate counter incremented in EvalLocPath found"
+	}
+	var call *ssa.Call
+	for _, b := range f.Blocks {
+		for _, in := range b.Instrs {
+			if c, ok := in.(*ssa.Call); ok && c.Call.StaticCallee() != nil && c.Call.StaticCallee().Object() == inner {
+				if call != nil {
+					return toggle, "EvalLocPathInternal is called at two places — not decided"
+				}
+				call = c
+			}
+		}
+	}
+	if call == nil {
+		return toggle, "EvalLocPath never resolves a path (no call of EvalLocPathInternal)"
+	}
+	depthSubj := ctxKey + ".predicateCount"
+	paritySubj := "(" + ctxKey + "." + toggle.Name() + " % 2)"
+	pos := ISet{{1, fullISet[0].hi}}
+	classify := func(a *pcAtom) string {
+		switch a.subj {
+		case depthSubj:
+			if a.set.equal(pos) {
+				return "inpred"
+			}
+			if a.set.equal(pos.complement()) {
+				return "!inpred"
+			}
+		case paritySubj:
+			// the parity test must look at the incremented counter
+			if bo, ok := a.v.(ssa.Instruction); ok && !(incr.Block().Dominates(bo.Block())) {
+				return ""
+			}
+			if a.set.equal(isetOf(1)) {
+				return "odd"
+			}
+			if a.set.equal(isetOf(0)) {
+				return "!odd"
+			}
+		}
+		if a.key == ctxKey+".previousPredicateRequiresELP" {
+			return "elp"
+		}
+		return ""
+	}
+	// the increment happens exactly inside a predicate
+	if msg := pcCompare(sym.PathCond(f.Blocks[0], incr.Block(), nil), classify, func(env map[string]bool) bool { return env["inpred"] }); msg != "" {
+		return toggle, "the toggle " + toggle.Name() + " is not incremented exactly when EvalLocPath runs inside a predicate: " + msg
+	}
+	if msg := pcCompare(sym.PathCond(f.Blocks[0], call.Block(), nil), classify, func(env map[string]bool) bool {
+		if env["inpred"] {
+			return !env["odd"]
+		}
+		return env["elp"]
+	}); msg != "" {
+		return toggle, "EvalLocPath does not skip exactly the first path of a predicate (the key name): " + msg
+	}
+	return toggle, ""
 }
